@@ -183,6 +183,32 @@ std::string gen_key(Src& s, const GenOpts& o) {
   return gen_string(s, o.special_strings, o.long_strings && s.coin(1, 4));
 }
 
+MV gen_many_containers(Src& s) {
+  static const int around[] = {127, 128, 129, 254, 255, 256, 257, 258, 300, 511, 512, 513, 700};
+  size_t n = s.coin(2, 3) ? (size_t)around[s.index(13)] : (size_t)s.pick(100, 700);
+  bool objects = s.coin(1, 3);
+  int nest = (int)s.weighted({5, 3, 1});  // 0: [x]   1: [[x]]   2: [[[x]]]
+  MV out = objects ? MV::obj() : MV::arr();
+  for (size_t i = 0; i < n; i++) {
+    MV leaf = MV::uint(i % 10);
+    MV v = leaf;
+    for (int k = 0; k <= nest; k++) {
+      if (objects) {
+        MV w = MV::obj();
+        w.o.emplace_back("k", v);
+        v = w;
+      } else {
+        MV w = MV::arr();
+        w.a.push_back(v);
+        v = w;
+      }
+    }
+    if (objects) out.o.emplace_back("m" + std::to_string(i), v);
+    else out.a.push_back(v);
+  }
+  return out;
+}
+
 MV gen_scalar(Src& s, const GenOpts& o) {
   switch (s.weighted({10, 8, 8, 40, 34})) {
     case 0: return MV::null();
